@@ -112,8 +112,8 @@ def main(argv=None):
         # witness validation: the reachability witness (kani::cover) of the cheapest passing query is turned into a concrete native test of
         # the same harness body and executed against the real code (dev and release settings): it must run through without a panic
         passing = sorted([r for r in results if r.status == "pass"], key=lambda r: r.wall_s)
-        # (skipped when a quick run has already used more than 8 of its 15 minutes)
-        if runner and passing and not args.only and not (args.tier == "quick" and time.time() - t0 > 480):
+        # (skipped when a quick run has already used more than 700 of its 900 seconds)
+        if runner and passing and not args.only and not (args.tier == "quick" and time.time() - t0 > 700):
             w = passing[0]
             try:
                 rep = runner.replay(w)
